@@ -213,6 +213,9 @@ func (ts *TermStore) And(a, b *Term) *Term {
 	if a == b {
 		return a
 	}
+	if (a.Op == "not" && a.Args[0] == b) || (b.Op == "not" && b.Args[0] == a) {
+		return ts.False()
+	}
 	return ts.mk("and", BoolSort, a, b)
 }
 
@@ -228,6 +231,9 @@ func (ts *TermStore) Or(a, b *Term) *Term {
 	}
 	if a == b {
 		return a
+	}
+	if (a.Op == "not" && a.Args[0] == b) || (b.Op == "not" && b.Args[0] == a) {
+		return ts.True()
 	}
 	return ts.mk("or", BoolSort, a, b)
 }
@@ -253,6 +259,18 @@ func (ts *TermStore) Ite(c, a, b *Term) *Term {
 		}
 		if a.IsFalse() && b.IsTrue() {
 			return ts.Not(c)
+		}
+		if a.IsTrue() {
+			return ts.Or(c, b)
+		}
+		if a.IsFalse() {
+			return ts.And(ts.Not(c), b)
+		}
+		if b.IsTrue() {
+			return ts.Or(ts.Not(c), a)
+		}
+		if b.IsFalse() {
+			return ts.And(c, a)
 		}
 	}
 	return ts.mk("ite", a.Sort, c, a, b)
@@ -284,6 +302,13 @@ func (ts *TermStore) Eq(a, b *Term) *Term {
 		}
 		if b.IsFalse() {
 			return ts.Not(a)
+		}
+	}
+	// (ite c k1 k2) = k with constant arms folds to c, (not c), true or false
+	for _, pr := range [][2]*Term{{a, b}, {b, a}} {
+		x, k := pr[0], pr[1]
+		if x.Op == "ite" && k.Const && x.Args[1].Const && x.Args[2].Const && x.Sort.K != SFP32 && x.Sort.K != SFP64 {
+			return ts.Ite(x.Args[0], ts.Eq(x.Args[1], k), ts.Eq(x.Args[2], k))
 		}
 	}
 	if a.id > b.id {
